@@ -431,7 +431,7 @@ def evaluate(case):
             return core.run('asl', ['-q', 'a.asm'], variant=v, timeout=to)
         o = run('plain')
         r = finish(run, o, ASL_OK, describe(case), 'asl/raw', big_ok=False)
-        return r or core.R(True, 'rc%s' % o.rc, nontrivial=o.rc != 0, states=['raw%d' % o.rc])
+        return r or core.R(True, 'rc%s' % o.rc, nontrivial=o.rc != 0, states=['raw%s' % o.rc])
     if k == 'stmt':
         op = case['op']
         src = '\tcpu %s\n%s\t%s %s\n\tnop\n' % (case['cpu'], 'lbl' if case['lab'] else '', op.lower(), ','.join(case['args']))
@@ -499,7 +499,7 @@ def evaluate(case):
             return core.run('asl', ['-q'] + case.get('opt', []) + ['a.asm'], variant=v, timeout=to, maxout=1 << 16)
         o = run('asan')
         r = finish(run, o, ASL_OK, (src if len(src) < 400 else src[:200] + '...' + src[-100:]).replace('\n', ' / ') + ' | asl ' + ' '.join(case.get('opt', [])), 'asl/seq/' + case['fam'], big_ok=False)
-        return r or core.R(True, 'rc%s' % o.rc, nontrivial=True, states=['seq%d' % o.rc])
+        return r or core.R(True, 'rc%s' % o.rc, nontrivial=True, states=['seq%s' % o.rc])
     if k in ('nest', 'count', 'ctx'):
         src, opt = nest_src(case)
 
@@ -511,7 +511,7 @@ def evaluate(case):
         o = run('asan')
         r = finish(run, o, ASL_OK, 'nesting %s' % {x: case[x] for x in case if x != 'k'}, 'asl/nest/' + case.get('kind', case.get('kw', 'ctx')),
                    big_ok=(k == 'count' and case['cnt'] in BIG))
-        return r or core.R(True, 'rc%s' % o.rc, nontrivial=True, states=['n%d' % o.rc])
+        return r or core.R(True, 'rc%s' % o.rc, nontrivial=True, states=['n%s' % o.rc])
     if k == 'file':
         seed = seeds()[case['seed']]
         mut = case['mut']
@@ -564,7 +564,7 @@ def evaluate(case):
         if case['cpu'] == '87C00' and len(img) >= 2 and 0xec <= img[0] <= 0xef and img[1] == 0xfe:
             grp += '/relative-jump-to-itself'
         r = finish(run, o, TOOL_OK | {4}, 'dasl -cpu %s -entryaddress %s on image %s' % (case['cpu'], case.get('entry', '256'), img.hex()), grp, big_ok=False)
-        return r or core.R(True, 'rc%s' % o.rc, nontrivial=True, states=['dasl%d' % o.rc])
+        return r or core.R(True, 'rc%s' % o.rc, nontrivial=True, states=['dasl%s' % o.rc])
     raise ValueError(k)
 
 
